@@ -18,11 +18,7 @@ fn format_stub(_a: std::fmt::Arguments<'_>) -> String {
 }
 
 fn push(q: &mut Vec<u8>, s: &[u8]) {
-    let mut i = 0;
-    while i < s.len() {
-        q.push(s[i]);
-        i += 1;
-    }
+    q.extend_from_slice(s);
 }
 /// "D.D.D.D" with four symbolic digits
 fn push_addr(q: &mut Vec<u8>) -> Ipv4Addr {
@@ -87,7 +83,7 @@ fn forwarded(two_first: bool, two_second: bool) {
 macro_rules! fh {
     ($name:ident, $body:expr) => {
         #[kani::proof]
-        #[kani::unwind(130)]
+        #[kani::unwind(45)]
         #[kani::stub(std::backtrace::Backtrace::capture, backtrace_stub)]
         #[kani::stub(alloc::fmt::format, format_stub)]
         #[kani::stub(std::arch::x86_64::__cpuid_count, zeros)]
